@@ -75,6 +75,10 @@ type Addr struct {
 const zeroTimeNs = "(- 62135596800000000000)"
 
 func isTimeType(t types.Type) bool {
+	if t == nil {
+		return false
+	}
+	t = types.Unalias(t)
 	if n, ok := t.(*types.Named); ok {
 		o := n.Obj()
 		return o.Pkg() != nil && o.Pkg().Path() == "time" && o.Name() == "Time"
@@ -83,8 +87,9 @@ func isTimeType(t types.Type) bool {
 }
 
 func isMutexType(t types.Type) bool {
+	t = types.Unalias(t)
 	if p, ok := t.(*types.Pointer); ok {
-		t = p.Elem()
+		t = types.Unalias(p.Elem())
 	}
 	if n, ok := t.(*types.Named); ok {
 		o := n.Obj()
@@ -95,8 +100,9 @@ func isMutexType(t types.Type) bool {
 
 // typeKey is the stable name of a (named) struct type used in heap keys.
 func typeKey(t types.Type) string {
+	t = types.Unalias(t)
 	if p, ok := t.(*types.Pointer); ok {
-		t = p.Elem()
+		t = types.Unalias(p.Elem())
 	}
 	if n, ok := t.(*types.Named); ok {
 		o := n.Obj()
